@@ -24,7 +24,30 @@ def uses_parallel(force, threads, k, size, mink, minn):
     return force == "par" or (threads > 1 and k >= mink and size >= minn)
 
 
+def gen_op_many(rng):
+    """>= 17 sequences, heavy duplicates, >= 17 threads, every splitting: the partition's initial sample has more
+    than 16 equal-key entries, ties across many sequences at every split point"""
+    cmp = rng.choice(["lt", "lt", "gt", "half"])
+    k = rng.choice([17, 18, 20, 24, 32, 33, 40])
+    nv = rng.choice([2, 2, 3, 4])
+    vals = list(range(nv)) if cmp != "half" else list(range(2 * nv))
+    # (almost) equal lengths: every sequence then contributes a real sample to the initial partition
+    L = rng.choice([1, 1, 2, 3, 4])
+    lens = [0 if rng.random() < 0.05 else (L if rng.random() < 0.85 else rng.randrange(1, L + 2)) for _ in range(k)]
+    runs = [make_run(rng, cmp, l, vals) for l in lens]
+    total = sum(lens)
+    variant = rng.choice(["s", "s", "s", "u"])
+    split = rng.choice(["exact", "exact", "sampling"])
+    threads = rng.choice([2, 3, 5, 17, 17, 19, 24, 32])
+    osf = rng.choice([1, 2, 10])
+    algo = rng.choice(["lt", "ltc", "bubble"])
+    size = total if rng.random() < 0.5 else rng.randrange(total + 1)
+    return f"pm {variant} {cmp} {split} {threads} {osf} {algo} par 2 1000 {size} " + " ".join(csv(r) for r in runs)
+
+
 def gen_op(rng, tier):
+    if rng.random() < 0.06:
+        return gen_op_many(rng)
     cmp = rng.choice(["lt", "lt", "lt", "gt", "half"])
     k = rng.choice([1, 2, 2, 3, 3, 4, 4, 5, 5, 6, 8])
     if rng.random() < 0.03:
